@@ -108,6 +108,15 @@ def parseScript : List String → List (Option FileOp × String) × Bool
         match arg.toNat? with
         | some n => if n ≤ 4096 then some (some (.read n), "p") else none
         | none => none
+      else if c == "Z" then (arg.toNat?).bind (fun k => if k ≤ 3 then some (some (FileOp.sizeF k), "z") else none)
+      else if c == "R" then (arg.toNat?).bind (fun k => if k ≤ 3 then some (some (FileOp.readAllF k), "r") else none)
+      else if c == "S" then
+        match arg.splitOn ":" with
+        | [w, o] =>
+          match (if w == "0" then some Whence.set else if w == "1" then some Whence.cur else if w == "2" then some Whence.end_ else none), o.toInt? with
+          | some wh, some off => some (some (.seekF off wh), "s")
+          | _, _ => none
+        | _ => none
       else if c == "i" && arg == "" then some (none, " i=1")
       else if c == "o" && arg == "" then some (none, " o=0")
       else if c == "f" && arg == "" then some (none, " f=1")
@@ -194,7 +203,7 @@ def fsOp (fs : Fs) (ws : List String) : Option (Fs × String) :=
       pure (fsApply fs (.copy a b f m), s!"{b01 ok} fired={b01 fired}")
   | ["fsexists", p] => do
       let p ← fromHex p; if !okFsPath p then none
-      pure (fs, s!"{b01 (fileExists fs p)} {b01 (dirExists fs p)} {b01 (fileTime fs p)}")
+      pure (fs, s!"{b01 (fileExists fs p)} {b01 (dirExists fs p)} {b01 (fileTime fs p)} {b01 (fileIsExecutable fs p)}")
   | ["fsreadall", p] => do
       let p ← fromHex p; if !okFsPath p then none
       pure (fs, match fileReadAllPath fs p with | some d => s!"1 {toHex d}" | none => "0")
@@ -229,6 +238,17 @@ def fsOp (fs : Fs) (ws : List String) : Option (Fs × String) :=
       let wd := wd'.getD cwd
       let a := getAbsolutePathAt wd p
       pure (fs, s!"cd={b01 wd'.isSome} cwd={toHex (cwdString wd)} abs={toHex a} e={b01 (fileExistsAt fs wd p)} d={b01 (dirExistsAt fs wd p)} ea={b01 (fileExistsAt fs wd a)} da={b01 (dirExistsAt fs wd a)}")
+  | ["fsopenf", p, flags] => do
+      let p ← fromHex p; let flags ← flags.toNat?; if !okFsPath p || flags ≥ 16 then none
+      let r := fileOpenF fs p flags
+      pure (r.1, s!"open={b01 r.2.1.isSome} fired={b01 r.2.2}")
+  | ["fscdl", d, need] => do
+      let d ← fromHex d; let need ← need.toNat?
+      if !(okFsPath d) || need > 100000 then none
+      let wd := (dirChange fs cwd d).getD cwd
+      pure (fs, match getcwdLoop (cwdString wd) need 64 4096 with
+        | some t => s!"cwd={toHex t}"
+        | none => "cwd=fail")
   | ["fsconst", _] => pure (fs, "tmp=2f746d70 home=1")
   | _ => none
 
